@@ -630,6 +630,8 @@ def _biogeme_paths(rec, viol, spec, names, bv, ref, gref, href, outer, gscale, h
             hv = np.array([[out.hessian[a][b_] for b_ in names] for a in names])
             if not close(hv, hsum, H_RTOL * 10, H_RTOL * hscale * nrows):
                 viol('create_function-hessian-differs', f'{hv.tolist()} vs {hsum.tolist()}')
+        kept_snapshot = (float(out.function), {n: float(out.gradient[n]) for n in names},
+                         {a: {b_: float(out.hessian[a][b_]) for b_ in names} for a in names})
         # a different point, to see that x is really used positionally in sorted-name order
         x2 = [v + rr.uniform(-0.05, 0.05) for v in x]
         from ..oracle import evalast
@@ -646,6 +648,13 @@ def _biogeme_paths(rec, viol, spec, names, bv, ref, gref, href, outer, gscale, h
             gv2 = np.array([out2.gradient[n] for n in names])
             if not close(gv2, g2, g_rtol * 10, g_rtol * gscale * nrows):
                 viol('create_function-gradient-at-x-differs', f'{gv2.tolist()} vs {g2.tolist()}')
+            # the output object obtained at x must still read what it read before the call at x2
+            rec.ev()
+            rec.c('earlier_create_function_output_rechecked')
+            now = (float(out.function), {n: float(out.gradient[n]) for n in names},
+                   {a: {b_: float(out.hessian[a][b_]) for b_ in names} for a in names})
+            if now != kept_snapshot:
+                viol('create_function-output-changed-by-a-later-call', f'{kept_snapshot} became {now}')
         except evalast.OutOfDomain:
             pass
         # user-facing finite-difference self check
